@@ -164,6 +164,11 @@ def zoo():
   z.append(_mergeable('SamplewiseClassification',
                       lambda: cl.SamplewiseClassification(metrics=metrics, input_type='multiclass-multioutput', vocab=vocab),
                       mo, lambda a: _norm(a.result()), as_array=False))
+  # through as_agg_fn() with an external vocabulary: batches that do not cover the vocabulary must not change tn-based metrics
+  mo3 = [(['a'], ['a']), (['b'], ['a']), (['a', 'c'], ['c', 'b']), (['b'], ['b']), (['c'], ['a', 'c'])]
+  z.append(_mergeable('SamplewiseClassification-as_agg_fn-vocab',
+                      lambda: _AggState(cl.SamplewiseClassification(metrics=metrics + ['specificity'], input_type='multiclass-multioutput', vocab=vocab).as_agg_fn()),
+                      mo3, lambda a: _norm(a.result()), as_array=False))
   rk = [(['a'], ['a']), (['a', 'b'], ['b', 'c', 'a']), (['c'], ['a', 'b', 'c', 'd', 'e']), (['e', 'a'], ['d', 'e']), (['b'], ['c'])]
   for kl in (None, [1, 2], [1, 2, 5]):
     z.append(_mergeable(f'TopKRetrieval-k{kl}', lambda kl=kl: rt.TopKRetrieval(k_list=kl), rk, lambda a: _norm(a.result()), as_array=False))
